@@ -499,6 +499,59 @@ theorem abs_buf_blit_self (d : Buf) (xs : List Nat) (h : d.Abs xs) (od os ls : I
        (xs.take od.toNat ++ (xs.drop os.toNat).take ls.toNat ++
         xs.drop (od.toNat + ((xs.drop os.toNat).take ls.toNat).length))) := Buf.blitCore_self_abs h od os ls hod hos hls hsrc
 
+/-- array operations of a history (the cfuns and `put`; arguments are arbitrary, possibly ill-typed or out of range) -/
+inductive AOp where
+  | push (x : Val) | pop | insert (pos : Arg) (ys : List Val) | remove (pos : Arg) (n : Option Arg)
+  | fill (v : Val) | put (key : Arg) (v : Val) | trim | clear
+
+def astep (a : Arr) : AOp → Arr
+  | .push x => (a.push x).1
+  | .pop => a.pop.1
+  | .insert pos ys => (a.insert pos ys).1
+  | .remove pos n => (a.remove pos n).1
+  | .fill v => (a.fill v).1
+  | .put key v => (a.put key v).1
+  | .trim => a.trim.1
+  | .clear => a.clear.1
+
+theorem step_push (a : Arr) (xs : List Val) (h : a.Abs xs) (x : Val) : ∃ zs, (a.push x).1.Abs zs := by
+  rcases Arr.push_abs h x with ⟨_, e⟩ | ⟨_, _, hA⟩
+  · exact ⟨xs, by rw [e]; exact h⟩
+  · exact ⟨_, hA⟩
+theorem step_insert (a : Arr) (xs : List Val) (h : a.Abs xs) (pos) (ys : List Val) : ∃ zs, (a.insert pos ys).1.Abs zs := by
+  rcases Arr.insert_abs h pos ys with e | ⟨_, _, _, _, _, _, _, hA⟩
+  · exact ⟨xs, by rw [e]; exact h⟩
+  · exact ⟨_, hA⟩
+theorem step_put (a : Arr) (xs : List Val) (h : a.Abs xs) (key) (v : Val) : ∃ zs, (a.put key v).1.Abs zs := by
+  rcases Arr.put_abs h key v with e | ⟨_, _, _, _, _, hA⟩
+  · exact ⟨xs, by rw [e]; exact h⟩
+  · exact ⟨_, hA⟩
+theorem step_remove (a : Arr) (xs : List Val) (h : a.Abs xs) (pos n) : ∃ zs, (a.remove pos n).1.Abs zs := by
+  rcases Arr.remove_abs h pos n with e | ⟨_, _, _, _, _, _, _, hA⟩
+  · exact ⟨xs, by rw [e]; exact h⟩
+  · exact ⟨_, hA⟩
+
+theorem astep_abs (a : Arr) (xs : List Val) (h : a.Abs xs) : (op : AOp) → ∃ zs, (astep a op).Abs zs
+  | .push x => step_push a xs h x
+  | .pop => ⟨_, (Arr.pop_abs h).1⟩
+  | .insert pos ys => step_insert a xs h pos ys
+  | .remove pos n => step_remove a xs h pos n
+  | .fill v => ⟨_, (Arr.fill_abs h v).2⟩
+  | .put key v => step_put a xs h key v
+  | .trim => ⟨_, (Arr.trim_abs h).2⟩
+  | .clear => ⟨_, Arr.clear_abs h⟩
+
+/-- **for all operation sequences** on an array — whatever the arguments, ill-typed and out of range included — the
+state stays a well-formed sequence: every cell below `count` is initialised, `count ≤ capacity`, both fit `int32_t`
+(so no operation, successful or failing, leaves a state from which memory outside the storage could be reached) -/
+theorem arr_inv_reachable (ops : List AOp) (a : Arr) (xs : List Val) (h : a.Abs xs) :
+    ∃ ys, (ops.foldl astep a).Abs ys := by
+  induction ops generalizing a xs with
+  | nil => exact ⟨xs, h⟩
+  | cons op rest ih =>
+    obtain ⟨zs, hz⟩ := astep_abs a xs h op
+    exact ih _ zs hz
+
 /-- non-vacuity: a concrete array state is represented -/
 example : (Arr.new 2).Abs [] := Arr.new_abs 2 (by decide)
 
@@ -520,7 +573,7 @@ theorem aremove_no_ub (a : Arr) (pos : Arg) (n : Option Arg) : (a.remove pos n).
 
 /-- the other recognised shape `at + n > array->count` overflows: witness -/
 theorem aremove_overflow_ub :
-    (Arr.removeWith false ⟨3, 3, #[some 1, some 2, some 3]⟩ (.int 1) (some (.int 2147483647))).2 = .ub := by decide
+    (Arr.removeWith false { count := 3, capacity := 3, cells := #[some 1, some 2, some 3] } (.int 1) (some (.int 2147483647))).2 = .ub := by decide
 
 /-- `janet_putindex` (shape read off the current source): the gap between the old count and the index is filled -/
 theorem putindex_fills_gap : putindexFillsArrayGap = true ∧ putindexFillsBufferGap = true := by decide
